@@ -344,7 +344,13 @@ AllU == <<
     Cand("u31", <<TSL(TSL(TS(vS), "#N"), "#N")>>, TS(vS)),                 \* 31 repeated size variable
     Cand("u32", <<TSL(TSL(vT, "2"), "#N")>>, TSL(vT, "#N")),               \* 32
     Cand("u33", <<Conc(TSL(TSi, "2"))>>, TSL(TSi, "2")),                   \* 33
-    Cand("u34", <<TSD(SInt, TSf)>>, TSf) >>                                \* 34
+    Cand("u34", <<TSD(SInt, TSf)>>, TSf),                                  \* 34
+    Cand("u35", <<TSD(vK, REF(TS(vS)))>>, TS(vS)),                         \* 35 REF nested in a TSD value (reduce_tsd_with_race)
+    Cand("u36", <<TSD(vK, SIG)>>, TSS(vK)),                                \* 36 SIGNAL nested in a TSD value
+    Cand("u37", <<TSL(REF(vT), "#N")>>, vT),                               \* 37 REF nested in a TSL element
+    Cand("u38", <<TSB(SIG, REF(TS(vS)))>>, TS(vS)),                        \* 38 SIGNAL / REF nested in bundle fields
+    Cand("u39", <<TSD(vK, REF(vV))>>, REF(vV)),                            \* 39 same shape as u11 up to REF: always ties
+    Cand("u40", <<TSL(SIG, "0")>>, SIG) >>                                 \* 40 SIGNAL nested in a TSL element
 
 AllB == <<
     Cand("b01", <<vT, vT>>, vT),                                           \*  1 repeated whole-TS variable
@@ -374,7 +380,13 @@ AllB == <<
     Cand("b25", <<vT, TSi>>, vT),                                          \* 25
     Cand("b26", <<TSL(vT, "2"), vT>>, vT),                                 \* 26
     Cand("b27", <<vS, vS>>, TS(vS)),                                       \* 27 two scalar parameters, one variable
-    Cand("b28", <<TSB(vT, vU), vT>>, vU) >>                                \* 28
+    Cand("b28", <<TSB(vT, vU), vT>>, vU),                                  \* 28
+    Cand("b29", <<TSi, SInt>>, TSi),                                       \* 29 } differ only in the concrete scalar parameter
+    Cand("b30", <<TS(vS), SFlt>>, TS(vS)),                                 \* 30 } (b29 / b15, b18 / b30): exact beats converted
+    Cand("b31", <<TSD(vK, REF(TS(vS))), TS(vS)>>, TS(vS)),                 \* 31 nested REF sharing its variable
+    Cand("b32", <<SInt, SFlt>>, TSi),                                      \* 32 } two concrete scalar parameters, crossed
+    Cand("b33", <<SFlt, SInt>>, TSf),                                      \* 33 }
+    Cand("b34", <<TSD(vK, SIG), TS(vK)>>, TSS(vK)) >>                      \* 34 nested SIGNAL
 
 AllC == AllU \o AllB
 NU == Len(AllU)
@@ -385,7 +397,8 @@ ArgsU == <<
     <<TSB(TSi, TSi)>>, <<TSB(TSi, TSf)>>, <<REF(TSi)>>, <<SIG>>, <<SInt>>, <<TSS(SInt)>>,                          \* 7-12
     <<TSs>>, <<TSS(SStr)>>, <<TSL(TSf, "2")>>, <<TSL(TSi, "0")>>, <<TSL(TSL(TSi, "2"), "2")>>,                      \* 13-17
     <<TSL(TSL(TSi, "2"), "3")>>, <<TSD(SInt, TSi)>>, <<TSD(SInt, TSL(TSi, "2"))>>, <<REF(TSL(TSi, "2"))>>,          \* 18-21
-    <<SFlt>>, <<SStr>> >>                                                                                          \* 22-23
+    <<SFlt>>, <<SStr>>,                                                                                            \* 22-23
+    <<TSD(SStr, TSi)>>, <<TSD(SStr, REF(TSi))>>, <<TSL(REF(TSi), "2")>> >>                                         \* 24-26
 
 ArgsB == <<
     <<TSi, TSi>>, <<TSi, TSf>>, <<TSf, TSf>>, <<TSi, SInt>>, <<TSi, SFlt>>, <<SInt, TSi>>,                          \* 1-6
@@ -394,7 +407,8 @@ ArgsB == <<
     <<TSf, TSi>>, <<TSs, TSs>>, <<TSf, SInt>>, <<SInt, SFlt>>, <<TSs, SStr>>, <<TSL(TSi, "2"), TSL(TSf, "2")>>,     \* 15-20
     <<TSL(TSi, "3"), TSf>>, <<TSD(SInt, TSf), SInt>>, <<TSD(SStr, TSs), TSi>>, <<TSD(SInt, TSf), SFlt>>,            \* 21-24
     <<TSS(SInt), TSi>>, <<TSS(SInt), TSs>>, <<REF(TSi), REF(TSi)>>, <<REF(TSi), TSf>>, <<TSi, SIG>>,                \* 25-29
-    <<TSS(SInt), SIG>>, <<TSB(TSi, TSf), TSi>>, <<TSB(TSi, TSf), TSf>>, <<TSL(TSi, "0"), TSL(TSi, "2")>> >>         \* 30-33
+    <<TSS(SInt), SIG>>, <<TSB(TSi, TSf), TSi>>, <<TSB(TSi, TSf), TSf>>, <<TSL(TSi, "0"), TSL(TSi, "2")>>,           \* 30-33
+    <<TSD(SStr, TSi), TSi>>, <<TSD(SStr, TSi), TSf>>, <<SFlt, SFlt>> >>                                            \* 34-36
 
 -----------------------------------------------------------------------------
 (* LEVEL A, continued: a formula-independent consequence of "most specific" - pattern subsumption.                   *)
@@ -462,12 +476,16 @@ MoreGeneral(P, Q) == GenC(P, Q) /\ \E a \in Universe(Len(P.ps)) : MatchesA(P, a)
 (* Pattern classes for which the unchanged tree's DOCUMENTED ranking does not follow subsumption; the clause is not  *)
 (* asserted for them (they stay informational observations, see /verif/out/agent_c19_report.md).  Exactly the pairs  *)
 (* of the pools that the unchanged tree resolves against subsumption fall in these classes (probe: report).          *)
-(*  1. SignalOverStructure: P has SIGNAL where Q has a structural pattern.  SIGNAL accepts every time-series but     *)
-(*     ranks 0 (operators.rst: rank(Concrete TS | Signal) = 0), below every structural pattern.                      *)
+(*  1. SignalOverStructure: P has SIGNAL (at the top or nested at the same position of the same constructors) where  *)
+(*     Q has a structural pattern.  SIGNAL accepts every time-series but ranks 0 (operators.rst:                     *)
+(*     rank(Concrete TS | Signal) = 0), below every structural pattern.                                              *)
 (*  2. BareOverBundle: P has a bare whole-time-series variable (possibly under REF) where Q has a TSB pattern with   *)
 (*     two or more distinct whole-time-series variables: the bundle costs 1 + 5000 + 5000 > 10000 = the bare one.    *)
 TsVarNames == {"~T", "~U", "~V"}
-SignalOverStructure(p, q) == ~IsScalarTerm(p) /\ ~IsScalarTerm(q) /\ Norm(p).k = "SIG" /\ Norm(q).k # "SIG"
+RECURSIVE SigOver(_, _)
+SigOver(p, q) == IF p.k = "SIG" THEN q.k # "SIG"
+                 ELSE p.k = q.k /\ Len(p.c) = Len(q.c) /\ \E i \in 1..Len(p.c) : SigOver(p.c[i], q.c[i])
+SignalOverStructure(p, q) == ~IsScalarTerm(p) /\ ~IsScalarTerm(q) /\ SigOver(Norm(p), Norm(q))
 BareOverBundle(p, q) == ~IsScalarTerm(p) /\ ~IsScalarTerm(q) /\ Norm(p).k = "tv" /\ Norm(q).k = "TSB"
                         /\ Cardinality(PVars(Norm(q)) \cap TsVarNames) >= 2
 SubsumptionNotAsserted(P, Q) ==
@@ -477,10 +495,31 @@ SubsumptionNotAsserted(P, Q) ==
 ParamsAccept(c, args) == LET w == CandWalk(c, args) IN w.ok /\ Functional(w.cs)
 GenSoundOn(P, Q) == GenC(P, Q) => \A a \in Universe(Len(P.ps)) : ParamsAccept(Q, a) => ParamsAccept(P, a)
 
+(* Specificity relative to the SUPPLIED VALUES, also independent of any rank formula.  ExactOver(q, p, args): q and p    *)
+(* have the same parameters except at concrete scalar parameters, and wherever they differ q declares exactly the    *)
+(* type of the supplied value - so p accepts that value only through a standard numeric conversion.  q is then       *)
+(* strictly more specific for these arguments: p must neither be selected nor be reported as sharing the best        *)
+(* specificity with q.                                                                                               *)
+ExactOver(q, p, args) ==
+    /\ Len(q.ps) = Len(p.ps) /\ Len(args) = Len(p.ps)
+    /\ \A i \in 1..Len(p.ps) : p.ps[i] = q.ps[i]
+                                \/ (p.ps[i].k = "sc" /\ q.ps[i].k = "sc" /\ args[i].k = "sc" /\ q.ps[i] = args[i])
+    /\ \E i \in 1..Len(p.ps) : p.ps[i] # q.ps[i]
+
+(* "a candidate whose parameters really match must not be dropped": rej = the labels the resolver reports as rejected *)
+RejFail(cands, args, rej) ==
+    IF \E c \in cands : c.l \in rej /\ MatchesA(c, args) THEN "C19.candidate_whose_parameters_match_the_arguments_was_rejected"
+    ELSE ""
+
 AFail(cands, args, rk, o) ==
     LET core == AFailCore(cands, args, rk, o)
         selc == CHOOSE c \in cands : c.l = o.sel
     IN  IF core # "" THEN core
+        ELSE IF o.kind = "ok" /\ \E q \in cands : q # selc /\ MatchesA(q, args) /\ ExactOver(q, selc, args)
+             THEN "C19.selected_candidate_converts_a_scalar_that_another_matching_candidate_takes_exactly"
+        ELSE IF o.kind = "ambiguous" /\ \E p, q \in cands : p.l \in o.tied /\ q.l \in o.tied /\ MatchesA(q, args)
+                                                             /\ ExactOver(q, p, args)
+             THEN "C19.ambiguity_between_an_exact_and_a_converted_scalar_match"
         ELSE IF o.kind = "ok" /\ \E q \in cands : q # selc /\ MatchesA(q, args) /\ MoreGeneral(selc, q)
                                                   /\ ~SubsumptionNotAsserted(selc, q)
              THEN "C19.selected_candidate_is_strictly_more_general_than_another_matching_candidate"
